@@ -192,11 +192,11 @@ func recoverAndCheck(res *core.Result, dir string, cfg kv.Cfg, bases []*kv.Model
 }
 
 func runC02(c *core.Ctx, res *core.Result) {
-	crashCase(c, res, nil, 0)
+	crashCaseOpts(c, res, nil, nil)
 }
 
-// crashCase is shared by C02 (all sites) and C03 (commit-path sites, large transactions).
-func crashCase(c *core.Ctx, res *core.Result, only func(string) bool, txBias int) {
+// crashCaseOpts is shared by C02 (all sites) and C03 (commit-path sites, large transactions).
+func crashCaseOpts(c *core.Ctx, res *core.Result, only func(string) bool, tweak func(*kv.GenOpts)) {
 	r := c.Rand
 	cfg := kv.Cfg{
 		MemTableSize: []int64{1, 300, 1024, 4096, 64 * 1024, 32 << 20}[r.Pick(2, 3, 3, 2, 2, 1)],
@@ -209,8 +209,8 @@ func crashCase(c *core.Ctx, res *core.Result, only func(string) bool, txBias int
 	}
 	o := kv.GenOpts{NOps: r.Range(25, 80), NKeys: r.Range(3, 20), BigValues: r.Chance(25), Maintenance: r.Range(2, 8),
 		CompactRange: r.Chance(20), Tx: true, Batch: true}
-	if txBias > 0 {
-		o.Maintenance = 2
+	if tweak != nil {
+		tweak(&o)
 	}
 	keySeed := r.U64()
 	k := 4
